@@ -152,12 +152,19 @@ def extra(rng, tier):
         unit = 2.0 ** k
         coef = [rng.randint(-5, 5) for _ in range(deg + 1)]
         P = lambda u: sum(c * u ** i for i, c in enumerate(coef))
-        xs = [u * unit for u in us]
+        # axes far from the origin relative to their spacing (seed C16-r5m1: a local coordinate computed as x*scale - shift cancels
+        # catastrophically there, (x - x_left)/dx does not): u -> off + h*u with every axis value and query exactly representable
+        off, h_ = 0.0, 1.0
+        if k == 0 and rng.random() < 0.5:
+            off, h_ = rng.choice([2.0 ** 42, -(2.0 ** 40), 3.0e12, 2.0 ** 36 + 5.0]), rng.choice([1.0, 3.0, 5.0])
+        xs = [off + u * h_ * unit for u in us]
         flat = [float(P(Fr(u))) for u in us]
         ext = rng.random() < 0.5
         span = us[-1] - us[0]
         vs = [us[0] + span * rng.randint(0, 64) / 64 for _ in range(5)] + ([us[0] - span / 4, us[-1] + span / 8] if ext else [])
-        qs = [v * unit for v in vs]
+        qs = [off + v * h_ * unit for v in vs]
+        if off != 0.0 and any(Fr(x) != Fr(off) + Fr(w) * Fr(h_) for x, w in list(zip(xs, us)) + list(zip(qs, vs))):
+            continue        # not exactly representable: not a sample of the polynomial
         strat = ("lin", ext) if kind == "lin" else ("spl", ext, kind)
         lines.append(i1_line("F", xs, [n], flat, strat, e_array("F", [len(qs)], qs)))
         wants.append([float(P(Fr(v))) for v in vs])
